@@ -62,6 +62,9 @@ def gen_points(rng, tier):
         elif rng.random() < 0.15:
             # three classes deep, a nested scope repeating an EARLIER one (same class / member names)
             src, _kind = fam_locate.deep_module(rng)
+        elif rng.random() < 0.1:
+            # a class of the module built once more as a local class of an EARLIER function (not a location itself)
+            src, _kind = fam_locate.local_module(rng, tier)
         else:
             # a third of the modules also carry imports (module level and class bodies) that mention pool names
             src = GM.gen_module(rng, depth=rng.choice([1, 2, 3, 3]), max_items=rng.choice([4, 6, 8]),
@@ -177,6 +180,8 @@ def gen_sync_points(rng, tier):
             # the value is read from a location at most two segments deep
             src, _kind = fam_locate.deep_module(rng)
             deep = True
+        elif r < 0.65:
+            src, _kind = fam_locate.local_module(rng, tier)
         else:
             src = GM.gen_module(rng, depth=rng.choice([1, 2, 2, 3]), max_items=rng.choice([4, 6, 8]))
         tree = ast.parse(src)
